@@ -55,4 +55,8 @@ def next_hop(tokeniser: Tokeniser) -> IP:
         # "self" is resolved with the address family of the route, and no BGP tcp session is of the l2vpn family:
         # it could never be resolved (TypeError once the route reached a neighbor), refuse it when it is written
         raise ValueError("'self' is not a valid next-hop for an l2vpn vpls route\n  Format: <ip> (e.g., 192.0.2.1)")
-    return IP.from_string(value)
+    try:
+        return IP.from_string(value)
+    except OSError:
+        # inet_pton reports a bad address with OSError, the callers treat ValueError as a refusal
+        raise ValueError(f"'{value}' is not a valid next-hop\n  Format: <ip> (e.g., 192.0.2.1)") from None
